@@ -148,7 +148,8 @@ pub trait RollingValidFeature<T: IsNone>: Vec1View<T> {
                     n += 1;
                     q_x += v.unwrap().f64() - alpha * q_x.f64();
                 }
-                let res = if n >= min_periods {
+                // an empty window has no weighted average (the weight sum is zero)
+                let res = if n >= min_periods && n > 0 {
                     q_x.f64() * alpha / (1. - oma.powi(n as i32))
                 } else {
                     f64::NAN
